@@ -762,7 +762,7 @@ Proof.
       * eapply ae_add; [iw|exact Tp|]. apply absf_set_leaf_at; auto. rewrite E. reflexivity.
       * apply SAME; [iw|reflexivity].
     + destruct (get_cont h t0) as [| |cs]; cbn; try (apply SAME; [iw|reflexivity]).
-      destruct (assoc k cs); apply SAME; [iw|reflexivity].
+      destruct (assoc k cs); (apply SAME; [iw|reflexivity]).
     + (* slowAdd *)
       destruct (top t) as [pa va| | | | | |] eqn:Tp; unfold val_ok in V; rewrite Pc, Tp in V; cbn in V;
         try contradiction. subst v.
@@ -778,21 +778,21 @@ Proof.
         apply (absf_alloc h t0 cs k r va pre); auto.
     + destruct p as [|k r]; cbn; try (apply SAME; [iw|reflexivity]).
       destruct (get_cont h t0) as [| |cs]; cbn; try (apply SAME; [iw|reflexivity]).
-      destruct (assoc k cs); apply SAME; [iw|reflexivity].
-    + destruct k; apply SAME; [iw|reflexivity].
+      destruct (assoc k cs); (apply SAME; [iw|reflexivity]).
+    + destruct k; (apply SAME; [iw|reflexivity]).
     + (* Leaf.Update *)
       apply (ae_hupd h _ t n v Pc). intros B q.
       assert (Ln : n < List.length h) by (rewrite P in IL; inv IL; auto).
       apply absf_set_leaf; auto.
-    + destruct (query_visits (get_cont h t0) q); apply SAME; [iw|reflexivity].
-    + destruct fr as [|[|[[c pre0] q0] todo] fr]; apply SAME; [iw|reflexivity].
+    + destruct (query_visits (get_cont h t0) q); (apply SAME; [iw|reflexivity]).
+    + destruct fr as [|[|[[c pre0] q0] todo] fr]; (apply SAME; [iw|reflexivity]).
     + destruct (heads_all q).
-      * destruct (get_cont h n); try (apply SAME; [iw|reflexivity]). destruct (strip_glob q); apply SAME; [iw|reflexivity].
+      * destruct (get_cont h n); try (apply SAME; [iw|reflexivity]). destruct (strip_glob q); (apply SAME; [iw|reflexivity]).
       * destruct q as [|k r]; try (apply SAME; [iw|reflexivity]).
         destruct (get_cont h n) as [| |cs]; try (apply SAME; [iw|reflexivity]).
-        destruct (assoc k cs); apply SAME; [iw|reflexivity].
+        destruct (assoc k cs); (apply SAME; [iw|reflexivity]).
     + destruct fr as [|f fr]; try (apply SAME; [iw|reflexivity]).
-      destruct (dtodo f) as [|[k c] rest]; apply SAME; [iw|reflexivity].
+      destruct (dtodo f) as [|[k c] rest]; (apply SAME; [iw|reflexivity]).
     + destruct fr as [|f fr]; try (apply SAME; [iw|reflexivity]).
       destruct del; cbn -[set_cont]; [|apply SAME; [iw|reflexivity]].
       apply ae_remove; [rewrite Pc; reflexivity|]. intros q. right.
@@ -804,10 +804,1301 @@ Proof.
       apply (absf_shrink_node h (dn f) cs (adel (dcur f) cs) E).
       intros a c A. destruct TS as [KN _]. rewrite assoc_adel in A by eauto.
       destruct (String.eqb a (dcur f)); [discriminate|exact A].
-  - destruct SH as [_ [-> _]]. apply SAME; [apply LKW; rewrite LO; discriminate|]. intros; apply get_cont_upd_mu; auto.
-  - destruct SH as [-> _]. apply SAME; [apply LKW; rewrite LO; discriminate|]. intros; apply get_cont_upd_mu; auto.
-  - destruct SH as [_ [-> _]]. apply SAME; [apply LKW; rewrite LO; discriminate|]. intros; apply get_cont_upd_mu; auto.
-  - destruct SH as [n [m [hs [_ [-> _]]]]]. apply SAME; [apply LKW; rewrite LO; discriminate|].
+  - destruct SH as [_ [-> _]]. apply SAME; [apply LKW; try rewrite LO; discriminate|]. intros; apply get_cont_upd_mu; auto.
+  - destruct SH as [-> _]. apply SAME; [apply LKW; try rewrite LO; discriminate|]. intros; apply get_cont_upd_mu; auto.
+  - destruct SH as [_ [-> _]]. apply SAME; [apply LKW; try rewrite LO; discriminate|]. intros; apply get_cont_upd_mu; auto.
+  - destruct SH as [n [m [hs [_ [-> _]]]]]. apply SAME; [apply LKW; try rewrite LO; discriminate|].
     intros; destruct m; apply get_cont_upd_mu; auto.
 Qed.
 
+
+(** * Runs with the log of write events *)
+
+(** reachability together with the sequence of write events (thread, path, value) *)
+Inductive reach_log (ops : list cop) : state -> list (nat * path * Z) -> Prop :=
+| rl_init : reach_log ops (init_state ops) []
+| rl_step s i s' t log :
+    reach_log ops s log -> nth_error (thr s) i = Some t -> step s i = Some s' ->
+    reach_log ops s'
+      (match is_write (hp s) t with Some (p, v) => log ++ [(i, p, v)] | None => log end).
+
+Lemma reach_log_reach ops s log : reach_log ops s log -> reach ops s.
+Proof. induction 1; [constructor|econstructor; eauto]. Qed.
+
+Lemma reach_reach_log ops s : reach ops s -> exists log, reach_log ops s log.
+Proof.
+  induction 1 as [|s i s' R [log IH] ST]; [exists []; constructor|].
+  unfold step, step_gen in ST. destruct (nth_error (thr s) i) as [t|] eqn:Et; [|discriminate].
+  eexists. eapply (rl_step ops s i s' t); eauto. unfold step, step_gen. rewrite Et. exact ST.
+Qed.
+
+Definition apply_log (log : list (nat * path * Z)) : path -> option Z :=
+  fold_left (fun m e => upd m (snd (fst e)) (snd e)) log (fun _ => None).
+
+Lemma apply_log_snoc log i p v q :
+  apply_log (log ++ [(i, p, v)]) q = upd (apply_log log) p v q.
+Proof. unfold apply_log. rewrite fold_left_app. reflexivity. Qed.
+
+Lemma absf_init ops q : absf (hp (init_state ops)) q = None.
+Proof. unfold absf. destruct q; reflexivity. Qed.
+
+(** for programs of Adds, lookups, queries and handle reads the content is at
+    every moment the result of replaying the write events in their order *)
+Theorem content_is_log ops s log :
+  forallb quiet_op ops = true -> reach_log ops s log ->
+  forall q, absf (hp s) q = apply_log log q.
+Proof.
+  intros Q R. assert (QP : forallb patched_op ops = true).
+  { rewrite forallb_forall in *. intros o Ho. specialize (Q o Ho). destruct o; auto; discriminate. }
+  induction R as [|s i s' t log R IH Et ST]; intros q; [apply absf_init|].
+  pose proof (reach_log_reach _ _ _ R) as Rs.
+  pose proof (reach_TInv _ _ QP Rs) as TI. pose proof (reach_val_ok _ _ Rs) as VO.
+  destruct (reach_AInv _ _ Q Rs) as [_ [QS _]].
+  pose proof (Forall_nth_error _ _ _ _ QS Et) as Qt. cbn in Qt.
+  destruct (step_abs_effect s i s' t TI VO ST Et) as [W E|p v W Tp E|n v Pc _|D _].
+  - rewrite W. rewrite E. apply IH.
+  - rewrite W. rewrite apply_log_snoc, E. unfold upd. rewrite IH. reflexivity.
+  - rewrite Pc in Qt. discriminate.
+  - destruct (tpc t); discriminate.
+Qed.
+
+(** ** the log as a sequential order *)
+
+(** the value the log leaves at a path: the last entry for that path *)
+Fixpoint look (log : list (nat * path * Z)) (q : path) : option Z :=
+  match log with
+  | [] => None
+  | e :: l => match look l q with
+              | Some v => Some v
+              | None => if path_eqb q (snd (fst e)) then Some (snd e) else None
+              end
+  end.
+
+Lemma look_snoc l i p v q : look (l ++ [(i, p, v)]) q = if path_eqb q p then Some v else look l q.
+Proof.
+  induction l as [|e l IH]; cbn.
+  - destruct (path_eqb q p); reflexivity.
+  - rewrite IH. destruct (path_eqb q p); [reflexivity|]. reflexivity.
+Qed.
+
+Lemma apply_log_look log q : apply_log log q = look log q.
+Proof.
+  induction log as [|[[i p] v] l IH] using rev_ind; [reflexivity|].
+  rewrite apply_log_snoc, look_snoc. unfold upd. rewrite IH. reflexivity.
+Qed.
+
+Lemma look_In l i p v : In (i, p, v) l -> look l p <> None.
+Proof.
+  induction l as [|e l IH]; cbn; [tauto|]. intros [->|H].
+  - destruct (look l p); [discriminate|]. cbn. rewrite path_eqb_refl. discriminate.
+  - specialize (IH H). destruct (look l p); [discriminate|contradiction].
+Qed.
+
+(** keep, for every thread, only its last write event *)
+Fixpoint keep_last (log : list (nat * path * Z)) : list (nat * path * Z) :=
+  match log with
+  | [] => []
+  | e :: l => if existsb (fun e' => Nat.eqb (fst (fst e')) (fst (fst e))) l
+              then keep_last l else e :: keep_last l
+  end.
+
+Lemma keep_last_In e log : In e (keep_last log) -> In e log.
+Proof.
+  induction log as [|a l IH]; cbn; [tauto|].
+  destruct (existsb _ l); [auto|]. intros [->|H]; auto.
+Qed.
+
+Lemma keep_last_NoDup log : NoDup (map (fun e => fst (fst e)) (keep_last log)).
+Proof.
+  induction log as [|a l IH]; cbn; [constructor|].
+  destruct (existsb (fun e' => Nat.eqb (fst (fst e')) (fst (fst a))) l) eqn:X; [exact IH|].
+  cbn. constructor; [|exact IH]. intros H. apply in_map_iff in H. destruct H as [e [Ee He]].
+  apply keep_last_In in He.
+  assert (existsb (fun e' => Nat.eqb (fst (fst e')) (fst (fst a))) l = true).
+  { apply existsb_exists. exists e. split; [auto|]. rewrite Ee. apply Nat.eqb_refl. }
+  congruence.
+Qed.
+
+Lemma keep_last_covers log i p v :
+  In (i, p, v) log -> exists p' v', In (i, p', v') (keep_last log).
+Proof.
+  revert p v. induction log as [|a l IH]; intros p v; cbn; [tauto|]. intros [->|H].
+  - destruct (existsb (fun e' => Nat.eqb (fst (fst e')) (fst (fst (i, p, v)))) l) eqn:X.
+    + apply existsb_exists in X. destruct X as [[[i' p'] v'] [He Hi]]. cbn in Hi.
+      apply Nat.eqb_eq in Hi. subst i'. apply (IH _ _ He).
+    + exists p, v. left; reflexivity.
+  - destruct (IH _ _ H) as [p' [v' H']]. exists p', v'.
+    destruct (existsb _ l); [auto|right; auto].
+Qed.
+
+(** entries of one thread all carry that thread's (path, value) *)
+Definition log_coherent (log : list (nat * path * Z)) : Prop :=
+  forall i p v p' v', In (i, p, v) log -> In (i, p', v') log -> p = p' /\ v = v'.
+
+Lemma look_keep_last log q : log_coherent log -> look (keep_last log) q = look log q.
+Proof.
+  induction log as [|[[i p] v] l IH]; intros C; [reflexivity|].
+  assert (Cl : log_coherent l).
+  { intros i0 p0 v0 p1 v1 H0 H1. apply (C i0 p0 v0 p1 v1); right; auto. }
+  cbn [keep_last fst].
+  destruct (existsb (fun e' => Nat.eqb (fst (fst e')) i) l) eqn:X.
+  - rewrite IH by auto. cbn [look fst snd].
+    apply existsb_exists in X. destruct X as [[[i' p'] v'] [He Hi]]. cbn in Hi.
+    apply Nat.eqb_eq in Hi. subst i'.
+    destruct (C i p v p' v' (or_introl eq_refl) (or_intror He)) as [<- <-].
+    destruct (look l q) eqn:Lq; [reflexivity|].
+    destruct (path_eqb_spec q p) as [->|]; [|reflexivity].
+    exfalso. eapply look_In; eauto.
+  - cbn [look fst snd]. rewrite IH by auto. reflexivity.
+Qed.
+
+Definition succ_pc (p : pc) : bool :=
+  match p with
+  | PUnwind (UDone (XAdd true)) | PDone (XAdd true) | PHRel (XAdd true) => true
+  | _ => false
+  end.
+
+(** an Add can only come to report success through terminalAdd's store *)
+Lemma enters_succ b h t h' t' :
+  tstep_gen b h t = Some (h', t') -> succ_pc (tpc t') = true ->
+  succ_pc (tpc t) = true \/
+  exists t0 v, tpc t = PAddTCrit t0 v /\ is_branch_c (get_cont h t0) = false.
+Proof.
+  intros ST. pose proof (tstep_shape _ _ _ _ _ ST) as SH.
+  destruct t as [o p hs]. cbn [tpc top held] in *.
+  destruct (lockop_of (TH o p hs)) eqn:LO.
+  - destruct SH as [_ ->]. cbn [tpc].
+    destruct p; cbn -[Nat.ltb hdelete set_cont new_chain] in *; try discriminate; auto;
+    try (destruct (get_cont h t) eqn:E; cbn -[set_cont]; intros X; try discriminate X;
+         right; exists t, v; rewrite E; auto; fail);
+    repeat (first
+              [ match goal with |- context [start_pc ?a ?b] => destruct b end
+              | match goal with |- context [match get_cont ?a ?b with _ => _ end] => destruct (get_cont a b) end
+              | match goal with |- context [match assoc ?a ?b with _ => _ end] => destruct (assoc a b) end
+              | match goal with |- context [if Nat.ltb ?a ?b then _ else _] => destruct (Nat.ltb a b) end
+              | match goal with |- context [if Nat.eqb ?a ?b then _ else _] => destruct (Nat.eqb a b) end
+              | match goal with |- context [match query_visits ?a ?b with _ => _ end] => destruct (query_visits a b) end
+              | match goal with |- context [if heads_all ?a then _ else _] => destruct (heads_all a) end
+              | match goal with |- context [match strip_glob ?a with _ => _ end] => destruct (strip_glob a) end
+              | match goal with |- context [match dtodo ?a with _ => _ end] => destruct (dtodo a) as [|[? ?] ?] end
+              | match goal with |- context [match ?x with _ => _ end] => is_var x; destruct x end ];
+            cbn -[Nat.ltb hdelete set_cont new_chain] in *; try discriminate; auto).
+  - destruct SH as [_ [_ ->]]. cbn [tpc]. destruct p; cbn in *; try discriminate; auto; qfin.
+  - destruct SH as [_ ->]. cbn [tpc]. destruct p; cbn in *; try discriminate; auto; qfin.
+  - destruct SH as [_ [_ ->]]. cbn [tpc]. destruct p; cbn in *; try discriminate; auto; qfin.
+  - destruct SH as [n [m [hs' [_ [_ ->]]]]]. cbn [tpc]. destruct p; cbn in *; try discriminate; auto; qfin.
+Qed.
+
+Lemma is_write_top h t p v : is_write h t = Some (p, v) -> top t = CAdd p v.
+Proof.
+  unfold is_write. destruct (top t); try discriminate. destruct (tpc t); try discriminate.
+  - destruct (is_branch_c (get_cont h t0)); [discriminate|]. intros X; inv X; reflexivity.
+  - destruct (get_cont h t0) as [| |cs]; try discriminate.
+    + intros X; inv X; reflexivity.
+    + destruct (assoc k cs); [discriminate|]. intros X; inv X; reflexivity.
+Qed.
+
+Lemma nth_error_top ops s i t :
+  reach ops s -> nth_error (thr s) i = Some t -> nth_error ops i = Some (top t).
+Proof.
+  intros R E. rewrite <- (reach_top _ _ R). rewrite nth_error_map, E. reflexivity.
+Qed.
+
+(** every log entry is the call of the thread that made it *)
+Lemma log_ops ops s log :
+  reach_log ops s log -> forall i p v, In (i, p, v) log -> nth_error ops i = Some (CAdd p v).
+Proof.
+  induction 1 as [|s i s' t log R IH Et ST]; intros j p v H; [destruct H|].
+  destruct (is_write (hp s) t) as [[p0 v0]|] eqn:W; [|eauto].
+  apply in_app_or in H. destruct H as [H|[H|[]]]; [eauto|]. inv H.
+  rewrite (nth_error_top _ _ _ _ (reach_log_reach _ _ _ R) Et).
+  f_equal. apply is_write_top in W. exact W.
+Qed.
+
+Lemma log_coherent_reach ops s log : reach_log ops s log -> log_coherent log.
+Proof.
+  intros R i p v p' v' H H'. pose proof (log_ops _ _ _ R _ _ _ H) as E.
+  pose proof (log_ops _ _ _ R _ _ _ H') as E'. rewrite E in E'. inv E'. auto.
+Qed.
+
+(** an Add that reports success has its write event in the log *)
+Lemma success_logged ops s log :
+  reach_log ops s log -> forall i t p v,
+  nth_error (thr s) i = Some t -> top t = CAdd p v -> succ_pc (tpc t) = true -> In (i, p, v) log.
+Proof.
+  induction 1 as [|s j s' tj log R IH Ej ST]; intros i t p v Et Tp S.
+  - cbn in Et. rewrite nth_error_map in Et. destruct (nth_error ops i); inv Et. discriminate.
+  - assert (GROW : forall e, In e log ->
+              In e (match is_write (hp s) tj with Some (p0, v0) => log ++ [(j, p0, v0)] | None => log end)).
+    { intros e He. destruct (is_write (hp s) tj) as [[p0 v0]|]; [apply in_or_app; auto|auto]. }
+    unfold step, step_gen in ST. rewrite Ej in ST.
+    destruct (tstep_gen false (hp s) tj) as [[h' tj']|] eqn:Ets; [|discriminate]. inv ST. cbn [thr] in Et.
+    destruct (Nat.eq_dec j i) as [->|D].
+    + erewrite nth_error_set_nth_eq in Et by eauto. inv Et.
+      assert (Tj : top tj = CAdd p v).
+      { pose proof (tstep_shape _ _ _ _ _ Ets) as SH.
+        destruct (lockop_of tj); repeat match goal with
+                                        | H : _ /\ _ |- _ => destruct H
+                                        | H : exists _, _ |- _ => destruct H
+                                        end; subst; cbn in Tp; exact Tp. }
+      destruct (enters_succ _ _ _ _ _ Ets S) as [S0|[t0 [v0 [Pc B]]]].
+      * apply GROW. eapply IH; eauto.
+      * assert (W : is_write (hp s) tj = Some (p, v)).
+        { unfold is_write. rewrite Tj, Pc, B. reflexivity. }
+        rewrite W. apply in_or_app. right. left. reflexivity.
+    + rewrite nth_error_set_nth_neq in Et by auto. apply GROW. eapply IH; eauto.
+Qed.
+
+(** Quiescent serializability of the Add / lookup / query / handle-read
+    fragment -- in fact at EVERY reachable state, quiescent or not: there is a
+    sequential order of distinct Add calls of the program, containing every Add
+    that has reported success, whose successive application to the empty tree
+    yields exactly the current content. *)
+Theorem quiescent_serializable_adds ops s :
+  forallb quiet_op ops = true -> reach ops s ->
+  exists order : list (nat * path * Z),
+    NoDup (map (fun e => fst (fst e)) order) /\
+    (forall i p v, In (i, p, v) order -> nth_error ops i = Some (CAdd p v)) /\
+    (forall i t p v, nth_error (thr s) i = Some t -> nth_error ops i = Some (CAdd p v) ->
+                     tpc t = PDone (XAdd true) -> In (i, p, v) order) /\
+    (forall q, absf (hp s) q = apply_log order q).
+Proof.
+  intros Q R. destruct (reach_reach_log _ _ R) as [log RL].
+  pose proof (log_coherent_reach _ _ _ RL) as C.
+  exists (keep_last log). split; [apply keep_last_NoDup|]. split; [|split].
+  - intros i p v H. eapply log_ops; eauto. apply keep_last_In. exact H.
+  - intros i t p v Et Eo D.
+    assert (Tp : top t = CAdd p v).
+    { pose proof (nth_error_top _ _ _ _ R Et) as X. rewrite Eo in X. inv X. reflexivity. }
+    assert (H : In (i, p, v) log).
+    { eapply success_logged; eauto. rewrite D. reflexivity. }
+    destruct (keep_last_covers _ _ _ _ H) as [p' [v' H']].
+    destruct (C i p v p' v' H (keep_last_In _ _ H')) as [<- <-]. exact H'.
+  - intros q. rewrite (content_is_log _ _ _ Q RL). rewrite !apply_log_look.
+    symmetry. apply look_keep_last. exact C.
+Qed.
+
+(** * Linearization points of Add and Get: the answer agrees with the abstraction *)
+
+(** the flat specification's conflict rule (CTreeCheck.fconflict): some stored
+    path is a strict prefix of p, or p is a strict prefix of a stored path *)
+Definition conflict_free (m : path -> option Z) (p : path) : Prop :=
+  forall q, (strict_prefix q p = true \/ strict_prefix p q = true) -> m q = None.
+
+Lemma strict_prefix_split q p :
+  strict_prefix q p = true -> exists s, s <> [] /\ p = q ++ s.
+Proof.
+  unfold strict_prefix. intros H. apply andb_true_iff in H. destruct H as [H1 H2].
+  apply is_prefix_spec in H1. destruct H1 as [s ->]. exists s. split; auto.
+  intros ->. rewrite app_nil_r in H2. rewrite path_eqb_refl in H2. discriminate.
+Qed.
+
+(** when the node an Add stands on is not a branch, nothing stored conflicts with its path *)
+Lemma conflict_free_at h p t0 :
+  resolve h 0 p = Some t0 -> is_branch_c (get_cont h t0) = false -> conflict_free (absf h) p.
+Proof.
+  intros R B q [H|H]; apply strict_prefix_split in H; destruct H as [s [NE ->]]; unfold absf.
+  - (* q is above p: it is a branch *)
+    rewrite resolve_app in R. destruct (resolve h 0 q) as [m|]; [|reflexivity].
+    destruct s as [|a s]; [contradiction|]. cbn in R.
+    destruct (get_cont h m) as [| |cs]; try discriminate. reflexivity.
+  - (* q is below p: p's node has no children *)
+    rewrite resolve_app, R. destruct s as [|a s]; [contradiction|]. cbn.
+    destruct (get_cont h t0) as [| |cs]; try discriminate; reflexivity.
+Qed.
+
+(** Add's success point: terminalAdd stores into the node currently at its
+    path, nothing stored conflicts with the path, and the content becomes
+    [upd content p v] -- the flat specification's successful Add *)
+Theorem add_success_point ops s i s' t p v t0 :
+  forallb patched_op ops = true -> reach ops s ->
+  nth_error (thr s) i = Some t -> top t = CAdd p v -> tpc t = PAddTCrit t0 v ->
+  is_branch_c (get_cont (hp s) t0) = false -> step s i = Some s' ->
+  conflict_free (absf (hp s)) p /\ (forall q, absf (hp s') q = upd (absf (hp s)) p v q).
+Proof.
+  intros Q R Et Tp Pc B ST. pose proof (reach_TInv _ _ Q R) as TI.
+  destruct (walk_pos_resolve s i t p t0 [] TI Et) as [pre [Ep Rp]].
+  { unfold walk_pos. rewrite Tp, Pc. reflexivity. }
+  rewrite app_nil_r in Ep. subst pre. split; [eapply conflict_free_at; eauto|].
+  destruct (step_abs_effect s i s' t TI (reach_val_ok _ _ R) ST Et) as [W _|p0 v0 W Tp0 E|n0 v0 Pc0 _|D _].
+  - unfold is_write in W. rewrite Tp, Pc, B in W. discriminate.
+  - rewrite Tp in Tp0. inv Tp0. exact E.
+  - rewrite Pc in Pc0. discriminate.
+  - rewrite Pc in D. discriminate.
+Qed.
+
+(** Add's failure points (1): the walk meets a leaf above its path -- a stored
+    strict prefix, the specification's conflict.  All programs. *)
+Theorem add_failure_point_leaf_above ops s i t p v t0 k r v' :
+  reach ops s -> nth_error (thr s) i = Some t -> top t = CAdd p v ->
+  (tpc t = PAddIRead t0 k r v' \/ tpc t = PAddSlow t0 k r v') ->
+  (exists w, get_cont (hp s) t0 = CLeaf w) ->
+  exists q, strict_prefix q p = true /\ absf (hp s) q <> None.
+Proof.
+  intros R Et Tp Pc [w E].
+  destruct (point_ops_on_current_node ops s i t p t0 (k :: r) R Et) as [pre [Ep Rp]].
+  { unfold walk_pos. rewrite Tp. destruct Pc as [-> | ->]; reflexivity. }
+  exists pre. split.
+  - unfold strict_prefix. apply andb_true_iff. split.
+    + apply is_prefix_spec. eauto.
+    + apply negb_true_iff. apply path_eqb_neq. subst p. apply app_cons_length_neq.
+  - unfold absf. rewrite Rp, E. discriminate.
+Qed.
+
+(** Get's miss point: the walk finds no child for the next name -- nothing is
+    stored at the path.  All programs. *)
+Theorem get_miss_point ops s i t p t0 k r :
+  reach ops s -> nth_error (thr s) i = Some t -> top t = CGetVal p -> tpc t = PGetRead t0 (k :: r) ->
+  match get_cont (hp s) t0 with
+  | CBranch cs => assoc k cs = None
+  | _ => True
+  end ->
+  absf (hp s) p = None.
+Proof.
+  intros R Et Tp Pc M.
+  destruct (point_ops_on_current_node ops s i t p t0 (k :: r) R Et) as [pre [-> Rp]].
+  { unfold walk_pos. rewrite Tp, Pc. reflexivity. }
+  unfold absf. rewrite resolve_app, Rp. cbn.
+  destruct (get_cont (hp s) t0) as [| |cs]; try reflexivity. rewrite M. reflexivity.
+Qed.
+
+(** ** Get's hit point (programs without Delete / handle Update): the node Get
+    returned is still the node stored at the path when Value() reads it *)
+
+Definition gv_node (p : pc) : option nat :=
+  match p with
+  | PUnwind (UVal n) | PHVal n | PHValRead n => Some n
+  | _ => None
+  end.
+
+Lemma enters_gv b h t h' t' n :
+  tstep_gen b h t = Some (h', t') -> gv_node (tpc t') = Some n ->
+  gv_node (tpc t) = Some n \/ tpc t = PGetRead n [] \/ (exists o, tpc t = PStart o /\ o = CHValue n).
+Proof.
+  intros ST. pose proof (tstep_shape _ _ _ _ _ ST) as SH.
+  destruct t as [o p hs]. cbn [tpc top held] in *.
+  destruct (lockop_of (TH o p hs)) eqn:LO.
+  - destruct SH as [_ ->]. cbn [tpc].
+    destruct p; cbn -[Nat.ltb hdelete set_cont new_chain] in *; try discriminate; auto;
+    repeat (first
+              [ match goal with |- context [start_pc ?a ?b] => destruct b end
+              | match goal with |- context [match get_cont ?a ?b with _ => _ end] => destruct (get_cont a b) end
+              | match goal with |- context [match assoc ?a ?b with _ => _ end] => destruct (assoc a b) end
+              | match goal with |- context [if Nat.ltb ?a ?b then _ else _] => destruct (Nat.ltb a b) end
+              | match goal with |- context [if Nat.eqb ?a ?b then _ else _] => destruct (Nat.eqb a b) end
+              | match goal with |- context [match query_visits ?a ?b with _ => _ end] => destruct (query_visits a b) end
+              | match goal with |- context [if heads_all ?a then _ else _] => destruct (heads_all a) end
+              | match goal with |- context [match strip_glob ?a with _ => _ end] => destruct (strip_glob a) end
+              | match goal with |- context [match dtodo ?a with _ => _ end] => destruct (dtodo a) as [|[? ?] ?] end
+              | match goal with |- context [match ?x with _ => _ end] => is_var x; destruct x end ];
+            cbn -[Nat.ltb hdelete set_cont new_chain] in *; try discriminate; auto);
+    try (intros X; inv X; eauto 6; fail).
+  - destruct SH as [_ [_ ->]]. cbn [tpc]. destruct p; cbn in *; try discriminate; auto; qfin.
+  - destruct SH as [_ ->]. cbn [tpc]. destruct p; cbn in *; try discriminate; auto; qfin.
+  - destruct SH as [_ [_ ->]]. cbn [tpc]. destruct p; cbn in *; try discriminate; auto; qfin.
+  - destruct SH as [n0 [m [hs' [_ [_ ->]]]]]. cbn [tpc]. destruct p; cbn in *; try discriminate; auto; qfin.
+Qed.
+
+Definition gv_ok (h : heap) (t : thread) : Prop :=
+  match top t, gv_node (tpc t) with
+  | CGetVal p, Some n => resolve h 0 p = Some n
+  | _, _ => True
+  end.
+
+Lemma reach_gv_ok ops s :
+  forallb quiet_op ops = true -> reach ops s -> Forall (gv_ok (hp s)) (thr s).
+Proof.
+  intros Q R. induction R as [|s j s' R IH ST].
+  - cbn. apply Forall_forall. intros t Ht. apply in_map_iff in Ht. destruct Ht as [o [<- _]].
+    unfold gv_ok. cbn. destruct o; exact I.
+  - destruct (reach_AInv _ _ Q R) as [[HO [TO _]] [QS _]].
+    assert (ST0 := ST). unfold step, step_gen in ST.
+    destruct (nth_error (thr s) j) as [tj|] eqn:Ej; [|discriminate].
+    destruct (tstep_gen false (hp s) tj) as [[h' tj']|] eqn:Ets; [|discriminate]. inv ST. cbn [hp thr].
+    pose proof (Forall_nth_error _ _ _ _ TO Ej) as Tj.
+    pose proof (Forall_nth_error _ _ _ _ QS Ej) as Qj. cbn in Qj.
+    pose proof (tstep_cont_mono _ _ _ _ _ Tj Qj Ets) as CM.
+    assert (MONO : forall t, gv_ok (hp s) t -> gv_ok h' t).
+    { intros t. unfold gv_ok. destruct (top t); auto. destruct (gv_node (tpc t)); auto.
+      intros X. eapply resolve_mono; eauto. }
+    apply Forall_forall. intros t0 H0. apply In_set_nth in H0. destruct H0 as [->|H0].
+    + assert (Tt : top tj' = top tj).
+      { pose proof (tstep_shape _ _ _ _ _ Ets) as SH.
+        destruct (lockop_of tj); repeat match goal with
+                                        | H : _ /\ _ |- _ => destruct H
+                                        | H : exists _, _ |- _ => destruct H
+                                        end; subst; reflexivity. }
+      unfold gv_ok. rewrite Tt. destruct (top tj) as [|p| | | | |] eqn:Tp; auto.
+      destruct (gv_node (tpc tj')) as [n|] eqn:G; auto.
+      destruct (enters_gv _ _ _ _ _ _ Ets G) as [G0|[Pc|[o [Pc Eo]]]].
+      * pose proof (Forall_nth_error _ _ _ _ IH Ej) as X. unfold gv_ok in X. rewrite Tp, G0 in X.
+        eapply resolve_mono; eauto.
+      * eapply resolve_mono; [exact CM|]. eapply get_reads_current_node; eauto.
+      * (* a thread whose call is GetLeafValue does not start as a handle read *)
+        pose proof (reach_val_ok _ _ R) as VO.
+        pose proof (Forall_nth_error _ _ _ _ VO Ej) as V. unfold val_ok in V. rewrite Pc in V.
+        rewrite Tp in V. subst o. discriminate.
+    + rewrite Forall_forall in IH. apply MONO. auto.
+Qed.
+
+(** the value Get + Value returns is the value stored at the path at the
+    moment Value() reads it *)
+Theorem get_hit_point ops s i t p n :
+  forallb quiet_op ops = true -> reach ops s ->
+  nth_error (thr s) i = Some t -> top t = CGetVal p -> tpc t = PHValRead n ->
+  exists s', step s i = Some s' /\
+             nth_error (thr s') i = Some (TH (top t) (PHRel (XVal (absf (hp s) p))) (held t)) /\
+             hp s' = hp s.
+Proof.
+  intros Q R Et Tp Pc.
+  pose proof (Forall_nth_error _ _ _ _ (reach_gv_ok _ _ Q R) Et) as G.
+  unfold gv_ok in G. rewrite Tp, Pc in G. cbn in G.
+  assert (LO : lockop_of t = LNone) by (unfold lockop_of; rewrite Pc; reflexivity).
+  unfold step, step_gen. rewrite Et. unfold tstep_gen. rewrite LO, Pc. cbn.
+  eexists. split; [reflexivity|]. cbn [thr hp]. split; [|reflexivity].
+  erewrite nth_error_set_nth_eq by eauto. unfold absf. rewrite G. reflexivity.
+Qed.
+
+(** * Query stability (soundness half, programs without Delete / handle Update) *)
+
+(** every node a Query stands on or still has to visit is the node its prefix
+    leads to in the current tree *)
+Definition item_ok (h : heap) (it : qitem) : Prop :=
+  resolve h 0 (snd (fst it)) = Some (fst (fst it)).
+
+Definition q_ok (h : heap) (t : thread) : Prop :=
+  match tpc t with
+  | PQEnter t0 pre _ _ fr | PQRead t0 pre _ _ fr =>
+      resolve h 0 pre = Some t0 /\ Forall (Forall (item_ok h)) fr
+  | PQVisit _ _ _ fr | PQNext _ fr => Forall (Forall (item_ok h)) fr
+  | _ => True
+  end.
+
+Lemma item_ok_mono h h' it : cont_mono h h' -> item_ok h it -> item_ok h' it.
+Proof. intros CM. unfold item_ok. apply resolve_mono; auto. Qed.
+
+Lemma q_ok_mono h h' t : cont_mono h h' -> q_ok h t -> q_ok h' t.
+Proof.
+  intros CM. unfold q_ok.
+  assert (F : forall fr, Forall (Forall (item_ok h)) fr -> Forall (Forall (item_ok h')) fr).
+  { intros fr H. eapply Forall_impl; [|exact H]. intros l Hl.
+    eapply Forall_impl; [|exact Hl]. intros it. apply item_ok_mono; auto. }
+  destruct (tpc t); auto; intros [R H]; split; auto; eapply resolve_mono; eauto.
+Qed.
+
+Lemma query_items_item_ok h t0 pre q :
+  keys_nodup h -> resolve h 0 pre = Some t0 ->
+  Forall (item_ok h) (query_items (get_cont h t0) pre q).
+Proof.
+  intros KN R. unfold query_items.
+  assert (ONE : forall cs k c, get_cont h t0 = CBranch cs -> assoc k cs = Some c ->
+                               resolve h 0 (pre ++ [k]) = Some c).
+  { intros cs k c E A. eapply resolve_snoc; eauto. }
+  destruct (get_cont h t0) as [| |cs] eqn:E.
+  - destruct q as [|k r]; [constructor|]. destruct (is_glob k); constructor.
+  - destruct q as [|k r]; [constructor|]. destruct (is_glob k); constructor.
+  - assert (F : Forall (fun kc : string * nat => assoc (fst kc) cs = Some (snd kc)) cs).
+    { apply Forall_forall. intros [k c] H. cbn. apply In_assoc; eauto. }
+    assert (ALL : forall r', Forall (item_ok h)
+                     (map (fun kc : string * nat => (snd kc, pre ++ [fst kc], r')) cs)).
+    { intros r'. apply Forall_map. eapply Forall_impl; [|exact F]. intros kc A.
+      unfold item_ok. cbn. eapply ONE; eauto. }
+    destruct q as [|k r]; [apply ALL|].
+    destruct (is_glob k); [apply ALL|].
+    destruct (assoc k cs) as [c|] eqn:A; [|constructor].
+    constructor; [|constructor]. unfold item_ok. cbn. eapply ONE; eauto.
+Qed.
+
+Lemma q_ok_step b h t h' t' :
+  keys_nodup h -> q_ok h t -> tstep_gen b h t = Some (h', t') -> cont_mono h h' -> q_ok h' t'.
+Proof.
+  intros KN QO ST CM. pose proof (tstep_shape _ _ _ _ _ ST) as SH.
+  pose proof (q_ok_mono _ _ _ CM QO) as QO'.
+  assert (FM : forall fr, Forall (Forall (item_ok h)) fr -> Forall (Forall (item_ok h')) fr).
+  { intros fr H. eapply Forall_impl; [|exact H]. intros l Hl.
+    eapply Forall_impl; [|exact Hl]. intros it. apply item_ok_mono; auto. }
+  destruct t as [o p hs]. unfold q_ok in *. cbn [tpc top held] in *.
+  destruct (lockop_of (TH o p hs)) eqn:LO.
+  - destruct SH as [-> ->]. cbn [tpc].
+    destruct p; cbn -[Nat.ltb hdelete set_cont new_chain] in *; try discriminate; auto.
+    + (* PStart *) destruct o0; cbn -[Nat.ltb]; auto.
+      * destruct (Nat.ltb n (List.length h)); exact I.
+      * destruct (Nat.ltb n (List.length h)); exact I.
+    + destruct (get_cont h t); exact I.
+    + destruct (get_cont h t) as [| |cs]; try exact I. destruct (assoc k cs); exact I.
+    + destruct (get_cont h t) as [| |cs]; cbn -[set_cont new_chain]; try exact I.
+      destruct (assoc k cs); exact I.
+    + destruct p as [|k r]; [exact I|]. destruct (get_cont h t) as [| |cs]; try exact I.
+      destruct (assoc k cs); exact I.
+    + destruct k; exact I.
+    + (* PQRead *) destruct QO as [R F].
+      destruct (query_visits (get_cont h t) q); cbn.
+      * constructor; [constructor|auto].
+      * constructor; [apply query_items_item_ok; auto|auto].
+    + (* PQVisit *) destruct o as [| |q0 [k|]| | | |]; auto.
+      destruct (Nat.eqb (List.length acc) k); auto.
+    + (* PQNext *) destruct fr as [|[|[[c pre0] q0] todo] fr]; cbn; auto.
+      inversion QO as [|x l Hx Hl]; subst. inversion Hx as [|y l' Hy Hl']; subst.
+      split; [exact Hy|]. constructor; auto.
+    + destruct (heads_all q).
+      * destruct (get_cont h n); try exact I. destruct (strip_glob q); exact I.
+      * destruct q as [|k r]; try exact I. destruct (get_cont h n) as [| |cs]; try exact I.
+        destruct (assoc k cs); exact I.
+    + destruct fr as [|f fr]; try exact I. destruct (dtodo f) as [|[k c] rest]; exact I.
+    + destruct fr as [|f fr]; exact I.
+    + destruct fr as [|f fr]; exact I.
+  - destruct SH as [_ [_ ->]]. cbn [tpc]. destruct p; cbn in *; try discriminate; auto;
+      try (destruct p; exact I); try (destruct fr as [|[|? ?] ?]; cbn in *; discriminate).
+  - destruct SH as [_ ->]. cbn [tpc]. destruct p; cbn in *; try discriminate; auto;
+      try (destruct p; exact I); try (destruct fr as [|[|? ?] ?]; cbn in *; discriminate).
+  - destruct SH as [_ [_ ->]]. cbn [tpc]. destruct p; cbn in *; try discriminate; auto;
+      try (destruct p; exact I); try (destruct fr as [|[|? ?] ?]; cbn in *; discriminate).
+  - destruct SH as [n [m [hs' [_ [_ ->]]]]]. cbn [tpc]. destruct p; cbn in *; try discriminate; auto;
+      try (destruct p; exact I); try (destruct hs; discriminate);
+      try (destruct fr as [|[|x l] fr]; cbn in *; try discriminate; inversion QO'; auto; fail);
+      try (destruct fr; discriminate).
+Qed.
+
+Lemma reach_q_ok ops s :
+  forallb quiet_op ops = true -> reach ops s -> Forall (q_ok (hp s)) (thr s).
+Proof.
+  intros Q R. assert (QP : forallb patched_op ops = true).
+  { rewrite forallb_forall in *. intros o Ho. specialize (Q o Ho). destruct o; auto; discriminate. }
+  induction R as [|s j s' R IH ST].
+  - cbn. apply Forall_forall. intros t Ht. apply in_map_iff in Ht. destruct Ht as [o [<- _]]. exact I.
+  - destruct (reach_AInv _ _ Q R) as [[HO [TO _]] [QS _]].
+    destruct (reach_TInv _ _ QP R) as [_ [_ [KN _]]].
+    unfold step, step_gen in ST.
+    destruct (nth_error (thr s) j) as [tj|] eqn:Ej; [|discriminate].
+    destruct (tstep_gen false (hp s) tj) as [[h' tj']|] eqn:Ets; [|discriminate]. inv ST. cbn [hp thr].
+    pose proof (Forall_nth_error _ _ _ _ TO Ej) as Tj.
+    pose proof (Forall_nth_error _ _ _ _ QS Ej) as Qj. cbn in Qj.
+    pose proof (tstep_cont_mono _ _ _ _ _ Tj Qj Ets) as CM.
+    apply Forall_forall. intros t0 H0. apply In_set_nth in H0. destruct H0 as [->|H0].
+    + eapply q_ok_step; eauto. apply (Forall_nth_error _ _ _ _ IH Ej).
+    + rewrite Forall_forall in IH. eapply q_ok_mono; eauto.
+Qed.
+
+(** Query stability, soundness half: whenever a Query / Walk is about to call its
+    visitor with (path, value) -- it stands on a node, holding its read lock, and
+    [query_visits] says this node is reported -- that leaf is stored at that
+    path with that value in the current tree.  So nothing that was absent
+    during the whole execution of the query is ever reported. *)
+Theorem query_reports_present ops s i t t0 pre q acc fr v :
+  forallb quiet_op ops = true -> reach ops s ->
+  nth_error (thr s) i = Some t -> tpc t = PQRead t0 pre q acc fr ->
+  query_visits (get_cont (hp s) t0) q = Some v ->
+  absf (hp s) pre = Some v /\
+  (exists s', step s i = Some s' /\
+     exists t', nth_error (thr s') i = Some t' /\ tpc t' = PQVisit pre v acc ([] :: fr)).
+Proof.
+  intros Q R Et Pc QV.
+  pose proof (Forall_nth_error _ _ _ _ (reach_q_ok _ _ Q R) Et) as X.
+  unfold q_ok in X. rewrite Pc in X. destruct X as [Rp _]. split.
+  - unfold absf. rewrite Rp. unfold query_visits in QV.
+    destruct (get_cont (hp s) t0); try discriminate.
+    destruct q as [|k0 [|? ?]]; try discriminate.
+    + inv QV. reflexivity.
+    + destruct (is_glob k0); try discriminate. inv QV. reflexivity.
+  - assert (LO : lockop_of t = LNone) by (unfold lockop_of; rewrite Pc; reflexivity).
+    unfold step, step_gen. rewrite Et. unfold tstep_gen. rewrite LO, Pc. cbn. rewrite QV. cbn.
+    eexists. split; [reflexivity|]. cbn [thr]. eexists. split.
+    + erewrite nth_error_set_nth_eq by eauto. reflexivity.
+    + reflexivity.
+Qed.
+
+(** * Add's failure point (2): a branch at the path has a leaf below it
+    (programs without Delete / handle Update) *)
+
+Definition branches_full (h : heap) : Prop :=
+  (forall n cs, get_cont h n = CBranch cs -> cs <> []) /\
+  (forall n, 0 < n -> n < List.length h -> get_cont h n <> CNil).
+
+Lemma bf_same h h' : List.length h' = List.length h ->
+  (forall n, get_cont h' n = get_cont h n) -> branches_full h -> branches_full h'.
+Proof.
+  intros L E [B N]. split.
+  - intros n cs H. rewrite E in H. eauto.
+  - intros n L0 L1. rewrite E. apply N; auto. lia.
+Qed.
+
+Lemma bf_set_leaf h n v : branches_full h -> branches_full (set_cont h n (CLeaf v)).
+Proof.
+  intros [B N]. split.
+  - intros m cs H. rewrite get_cont_set in H. destruct (Nat.eqb m n && Nat.ltb n (List.length h)); [discriminate|eauto].
+  - intros m L0 L1. rewrite length_set_cont in L1. rewrite get_cont_set.
+    destruct (Nat.eqb m n && Nat.ltb n (List.length h)); [discriminate|auto].
+Qed.
+
+Lemma bf_alloc h t0 cs0 k r v :
+  branches_full h -> t0 < List.length h ->
+  branches_full (set_cont h t0 (CBranch (cs0 ++ [(k, List.length h)])) ++ new_chain (List.length h) r v).
+Proof.
+  intros [B N] Lt.
+  set (h' := set_cont h t0 (CBranch (cs0 ++ [(k, List.length h)])) ++ new_chain (List.length h) r v).
+  assert (OLD : forall n, n < List.length h -> n <> t0 -> get_cont h' n = get_cont h n).
+  { intros n L D. unfold h'. rewrite get_cont_app_l by (rewrite length_set_cont; auto).
+    apply get_cont_set_neq; auto. }
+  assert (AT : get_cont h' t0 = CBranch (cs0 ++ [(k, List.length h)])).
+  { unfold h'. rewrite get_cont_app_l by (rewrite length_set_cont; auto). apply get_cont_set_eq; auto. }
+  assert (NEW : forall i, i <= List.length r ->
+            is_branch_c (get_cont h' (List.length h + i)) = negb (Nat.eqb i (List.length r)) /\
+            (i = List.length r -> get_cont h' (List.length h + i) = CLeaf v)).
+  { intros i Li. unfold h'. apply chain_content'; auto. apply length_set_cont. }
+  assert (LL : List.length h' = List.length h + S (List.length r)).
+  { unfold h'. rewrite app_length, length_set_cont, length_new_chain. reflexivity. }
+  split.
+  - intros n cs H E. subst cs. destruct (Nat.lt_ge_cases n (List.length h)) as [L|L].
+    + destruct (Nat.eq_dec n t0) as [->|D].
+      * rewrite AT in H. inv H. destruct cs0; discriminate.
+      * rewrite OLD in H by auto. eapply B; eauto.
+    + unfold h', get_cont in H. rewrite nth_error_app2 in H by (rewrite length_set_cont; auto).
+      rewrite length_set_cont in H.
+      change (get_cont (new_chain (List.length h) r v) (n - List.length h) = CBranch []) in H.
+      destruct (new_chain_branch _ _ _ _ _ H) as [k' [X _]]. discriminate.
+  - intros n L0 L1. rewrite LL in L1. destruct (Nat.lt_ge_cases n (List.length h)) as [L|L].
+    + destruct (Nat.eq_dec n t0) as [->|D]; [rewrite AT; discriminate|].
+      rewrite OLD by auto. apply N; auto.
+    + destruct (NEW (n - List.length h)) as [X Y]; [lia|].
+      replace (List.length h + (n - List.length h)) with n in * by lia.
+      destruct (Nat.eqb_spec (n - List.length h) (List.length r)) as [E|E].
+      * rewrite Y by auto. discriminate.
+      * cbn in X. destruct (get_cont h' n); try discriminate.
+Qed.
+
+Lemma tstep_branches_full b h t h' t' :
+  thread_ok (List.length h) t -> quiet_pc (tpc t) = true ->
+  branches_full h -> tstep_gen b h t = Some (h', t') -> branches_full h'.
+Proof.
+  intros [_ [IL P]] Q BF ST. pose proof (tstep_shape _ _ _ _ _ ST) as SH.
+  destruct (lockop_of t) eqn:LO.
+  - destruct SH as [-> _]. destruct t as [o p hs]. cbn [tpc held top] in *.
+    destruct p; cbn -[set_cont new_chain hdelete] in *; try discriminate; auto.
+    + destruct (get_cont h t); cbn -[set_cont]; auto; apply bf_set_leaf; auto.
+    + destruct (get_cont h t) as [| |cs]; cbn; auto. destruct (assoc k cs); auto.
+    + assert (Lt : t < List.length h) by (destruct P as [[r0 ->] _]; inv IL; auto).
+      destruct (get_cont h t) as [| |cs] eqn:E; cbn -[set_cont new_chain]; auto.
+      * apply (bf_alloc h t [] k r v); auto.
+      * destruct (assoc k cs) eqn:A; cbn -[set_cont new_chain]; auto.
+        apply (bf_alloc h t cs k r v); auto.
+    + destruct p as [|k r]; cbn; auto. destruct (get_cont h t) as [| |cs]; cbn; auto.
+      destruct (assoc k cs); auto.
+    + destruct k; auto.
+    + destruct (query_visits (get_cont h t) q); auto.
+    + destruct fr as [|[|[[c pre0] q0] todo] fr]; auto.
+  - destruct SH as [_ [-> _]]. eapply bf_same; [apply length_do_rlock| |exact BF]. intros; apply get_cont_upd_mu; auto.
+  - destruct SH as [-> _]. eapply bf_same; [apply length_do_req| |exact BF]. intros; apply get_cont_upd_mu; auto.
+  - destruct SH as [_ [-> _]]. eapply bf_same; [apply length_do_acq| |exact BF]. intros; apply get_cont_upd_mu; auto.
+  - destruct SH as [n [m [hs [_ [-> _]]]]]. eapply bf_same; [apply length_do_rel| |exact BF].
+    intros; destruct m; apply get_cont_upd_mu; auto.
+Qed.
+
+Lemma reach_branches_full ops s :
+  forallb quiet_op ops = true -> reach ops s -> branches_full (hp s).
+Proof.
+  intros Q R. induction R as [|s j s' R IH ST].
+  - split.
+    + intros n cs H. destruct n as [|[|n]]; cbn in H; discriminate.
+    + intros n L0 L1. cbn in L1. lia.
+  - destruct (reach_AInv _ _ Q R) as [[HO [TO _]] [QS _]].
+    unfold step, step_gen in ST.
+    destruct (nth_error (thr s) j) as [tj|] eqn:Ej; [|discriminate].
+    destruct (tstep_gen false (hp s) tj) as [[h' tj']|] eqn:Ets; [|discriminate]. inv ST. cbn [hp].
+    eapply tstep_branches_full; eauto.
+    + eapply Forall_nth_error; eauto.
+    + apply (Forall_nth_error _ _ _ _ QS Ej).
+Qed.
+
+(** below every branch there is a leaf *)
+Lemma leaf_below h : heap_ok h -> branches_full h -> forall d n cs,
+  List.length h - n <= d -> get_cont h n = CBranch cs ->
+  exists s l w, s <> [] /\ resolve h n s = Some l /\ get_cont h l = CLeaf w.
+Proof.
+  intros HO [B N]. induction d as [|d IH]; intros n cs Ld E.
+  - assert (n < List.length h).
+    { destruct (Nat.lt_ge_cases n (List.length h)); auto. rewrite get_cont_oob in E by auto. discriminate. }
+    lia.
+  - destruct cs as [|[k c] cs']; [exfalso; eapply B; eauto|].
+    destruct HO as [L0 HO']. pose proof (HO' _ _ E) as F. inversion F as [|x l [L1 L2] F']; subst. cbn in L1, L2.
+    destruct (get_cont h c) as [|w|ds] eqn:Ec.
+    + exfalso. eapply (N c); eauto. lia.
+    + exists [k], c, w. split; [discriminate|]. cbn. rewrite E. cbn. rewrite String.eqb_refl. auto.
+    + destruct (IH c ds) as [s [l [w [NE [Rs El]]]]]; [lia|auto|].
+      exists (k :: s), l, w. split; [discriminate|]. cbn. rewrite E. cbn. rewrite String.eqb_refl. auto.
+Qed.
+
+(** Add finds a branch at its own path: some stored path lies strictly below
+    it -- the specification's other conflict *)
+Theorem add_failure_point_branch_at ops s i t p v t0 v' cs :
+  forallb quiet_op ops = true -> reach ops s ->
+  nth_error (thr s) i = Some t -> top t = CAdd p v -> tpc t = PAddTCrit t0 v' ->
+  get_cont (hp s) t0 = CBranch cs ->
+  exists q, strict_prefix p q = true /\ absf (hp s) q <> None.
+Proof.
+  intros Q R Et Tp Pc E.
+  destruct (point_ops_on_current_node ops s i t p t0 [] R Et) as [pre [Ep Rp]].
+  { unfold walk_pos. rewrite Tp, Pc. reflexivity. }
+  rewrite app_nil_r in Ep. subst pre.
+  destruct (reach_Inv _ _ R) as [HO _].
+  destruct (leaf_below (hp s) HO (reach_branches_full _ _ Q R) (List.length (hp s)) t0 cs) as [sf [l [w [NE [Rs El]]]]];
+    [lia|auto|].
+  exists (p ++ sf). split.
+  - unfold strict_prefix. apply andb_true_iff. split.
+    + apply is_prefix_spec. eauto.
+    + apply negb_true_iff. apply path_eqb_neq. destruct sf; [contradiction|]. apply app_cons_length_neq.
+  - unfold absf. rewrite resolve_app, Rp, Rs, El. discriminate.
+Qed.
+
+(** * The fresh chain of an inserting Add is private until that Add returns *)
+
+Lemma rwalk_app_in h p1 : forall s p2 ns n,
+  rwalk h s (p1 ++ p2) = Some ns -> resolve h s p1 = Some n -> p2 <> [] -> In n ns.
+Proof.
+  induction p1 as [|a p1 IH]; intros s p2 ns n W R NE; cbn in *.
+  - inv R. destruct p2 as [|b p2]; [contradiction|]. cbn in W.
+    destruct (get_cont h n) as [| |cs]; try discriminate.
+    destruct (assoc b cs) as [c|]; try discriminate.
+    destruct (rwalk h c p2); try discriminate. inv W. left; reflexivity.
+  - destruct (get_cont h s) as [| |cs]; try discriminate.
+    destruct (assoc a cs) as [c|]; try discriminate.
+    destruct (rwalk h c (p1 ++ p2)) as [l|] eqn:Wl; try discriminate. inv W.
+    right. eapply IH; eauto.
+Qed.
+
+(** in a program without Delete / handle Update, the content of a node changes
+    only in a critical section of an Add standing on that node *)
+Lemma tstep_frame_pos b h t h' t' x :
+  tstep_gen b h t = Some (h', t') -> quiet_pc (tpc t) = true -> x < List.length h ->
+  (forall v, tpc t <> PAddTCrit x v) -> (forall k r v, tpc t <> PAddSlow x k r v) ->
+  get_cont h' x = get_cont h x.
+Proof.
+  intros ST Q Lx N1 N2. pose proof (tstep_shape _ _ _ _ _ ST) as SH.
+  destruct (lockop_of t) eqn:LO.
+  - destruct SH as [-> _]. destruct t as [o p hs]. cbn [tpc held top] in *.
+    destruct p; cbn -[set_cont new_chain hdelete] in *; try discriminate; auto.
+    + assert (x <> t) by (intros ->; eapply N1; reflexivity).
+      destruct (get_cont h t); cbn -[set_cont]; auto; apply get_cont_set_neq; auto.
+    + destruct (get_cont h t) as [| |cs]; cbn; auto. destruct (assoc k cs); auto.
+    + assert (x <> t) by (intros ->; eapply N2; reflexivity).
+      destruct (get_cont h t) as [| |cs]; cbn -[set_cont new_chain]; auto.
+      * rewrite get_cont_app_l by (rewrite length_set_cont; auto). apply get_cont_set_neq; auto.
+      * destruct (assoc k cs); cbn -[set_cont new_chain]; auto.
+        rewrite get_cont_app_l by (rewrite length_set_cont; auto). apply get_cont_set_neq; auto.
+    + destruct p as [|k r]; cbn; auto. destruct (get_cont h t) as [| |cs]; cbn; auto.
+      destruct (assoc k cs); auto.
+    + destruct k; auto.
+    + destruct (query_visits (get_cont h t) q); auto.
+    + destruct fr as [|[|[[c pre0] q0] todo] fr]; auto.
+  - destruct SH as [_ [-> _]]. apply get_cont_upd_mu; auto.
+  - destruct SH as [-> _]. apply get_cont_upd_mu; auto.
+  - destruct SH as [_ [-> _]]. apply get_cont_upd_mu; auto.
+  - destruct SH as [n0 [m [hs [_ [-> _]]]]]. destruct m; apply get_cont_upd_mu; auto.
+Qed.
+
+(** thread [i] has written (its insertion), is still walking, and the rest of
+    its path leads to a leaf that already carries its value, below a node [n]
+    whose write lock it holds *)
+Definition cp_ok (h : heap) (log : list (nat * path * Z)) (i : nat) (t : thread) : Prop :=
+  (forall o, tpc t = PStart o -> forall p v, ~ In (i, p, v) log) /\
+  (forall p v t0 p', top t = CAdd p v -> In (i, p, v) log -> walk_pos t = Some (p, t0, p') ->
+     exists n pn sfx l,
+       In (n, MW) (held t) /\ resolve h 0 pn = Some n /\ sfx <> [] /\ resolve h n sfx = Some l /\
+       resolve h t0 p' = Some l /\ get_cont h l = CLeaf v).
+
+
+Lemma walk_ok_pos h t p t0 p' :
+  walk_ok h t -> walk_pos t = Some (p, t0, p') ->
+  exists pre ns, p = pre ++ p' /\ resolve h 0 pre = Some t0 /\ rwalk h 0 pre = Some ns /\
+                 Forall (fun x => x < t0 /\ exists m, In (x, m) (held t)) ns.
+Proof.
+  intros Wt W. unfold walk_ok in Wt.
+  destruct (tpc t) eqn:P; try (rewrite W in Wt; exact Wt).
+  unfold walk_pos in W. rewrite P in W. destruct (top t); discriminate.
+Qed.
+
+(** another thread's step keeps [cp_ok] of thread [ti] *)
+Lemma cp_other ops s log i j ti tj h' tj' :
+  forallb quiet_op ops = true -> reach ops s -> i <> j ->
+  nth_error (thr s) i = Some ti -> nth_error (thr s) j = Some tj ->
+  tstep_gen false (hp s) tj = Some (h', tj') ->
+  cp_ok (hp s) log i ti -> cp_ok h' log i ti.
+Proof.
+  intros Q R D Ei Ej ST [C0 C1]. split; [exact C0|].
+  assert (QP : forallb patched_op ops = true).
+  { rewrite forallb_forall in *. intros o Ho. specialize (Q o Ho). destruct o; auto; discriminate. }
+  destruct (reach_AInv _ _ Q R) as [I [QS _]]. assert (I' := I). destruct I' as [HO [TO AC]].
+  pose proof (reach_Excl _ _ R) as EX.
+  destruct (reach_TInv _ _ QP R) as [[_ [_ WO]] [_ TS]].
+  pose proof (Forall_nth_error _ _ _ _ TO Ej) as Tj.
+  pose proof (Forall_nth_error _ _ _ _ QS Ej) as Qj. cbn in Qj.
+  pose proof (tstep_cont_mono _ _ _ _ _ Tj Qj ST) as CM.
+  intros p v t0 p' Tp Hin W. destruct (C1 p v t0 p' Tp Hin W) as [n [pn [sfx [l [Hn [Rn [NE [Rl [Rt El]]]]]]]]].
+  exists n, pn, sfx, l. repeat split; auto; try (eapply resolve_mono; eauto; fail).
+  (* the leaf keeps its value: only an Add standing on it could change it, and
+     such an Add holds every node on the way down, among them n *)
+  rewrite <- El.
+  assert (Ll : l < List.length (hp s)).
+  { destruct (Nat.lt_ge_cases l (List.length (hp s))); auto. rewrite get_cont_oob in El by auto. discriminate. }
+  assert (CONTRA : forall pj, walk_pos tj = Some (pj, l, []) \/ (exists k r, walk_pos tj = Some (pj, l, k :: r)) -> False).
+  { intros pj WP.
+    pose proof (Forall_nth_error _ _ _ _ WO Ej) as Wj.
+    assert (X : exists p'', walk_pos tj = Some (pj, l, p'')).
+    { destruct WP as [WP|[k [r WP]]]; eauto. }
+    destruct X as [p'' WP'].
+    destruct (walk_ok_pos _ _ _ _ _ Wj WP') as [pre [ns [_ [Rp [Wp F]]]]].
+    assert (Epre : pre = pn ++ sfx).
+    { eapply (resolve_inj (hp s) HO TS); [exact Rp|]. rewrite resolve_app, Rn. exact Rl. }
+    subst pre. pose proof (rwalk_app_in _ _ _ _ _ _ Wp Rn NE) as Inn.
+    rewrite Forall_forall in F. destruct (F _ Inn) as [_ [m Hm]].
+    eapply (excl_pair s i j ti tj n m); eauto. }
+  eapply tstep_frame_pos; eauto.
+  - intros v0 Pc. pose proof (Forall_nth_error _ _ _ _ (reach_val_ok _ _ R) Ej) as V.
+    unfold val_ok in V. rewrite Pc in V. cbn in V. destruct (top tj) eqn:Tj'; try contradiction.
+    eapply (CONTRA p0). left. unfold walk_pos. rewrite Tj', Pc. reflexivity.
+  - intros k r v0 Pc. pose proof (Forall_nth_error _ _ _ _ (reach_val_ok _ _ R) Ej) as V.
+    unfold val_ok in V. rewrite Pc in V. cbn in V. destruct (top tj) eqn:Tj'; try contradiction.
+    eapply (CONTRA p0). right. exists k, r. unfold walk_pos. rewrite Tj', Pc. reflexivity.
+Qed.
+
+Lemma step_not_start b h t h' t' : tstep_gen b h t = Some (h', t') -> forall o, tpc t' <> PStart o.
+Proof.
+  intros ST o. pose proof (tstep_shape _ _ _ _ _ ST) as SH.
+  destruct t as [o0 p hs]. cbn [tpc top held] in *.
+  destruct (lockop_of (TH o0 p hs)) eqn:LO.
+  - destruct SH as [_ ->]. cbn [tpc].
+    destruct p; cbn -[Nat.ltb hdelete set_cont new_chain] in *; try discriminate;
+    repeat (first
+              [ match goal with |- context [start_pc ?a ?b] => destruct b end
+              | match goal with |- context [match get_cont ?a ?b with _ => _ end] => destruct (get_cont a b) end
+              | match goal with |- context [match assoc ?a ?b with _ => _ end] => destruct (assoc a b) end
+              | match goal with |- context [if Nat.ltb ?a ?b then _ else _] => destruct (Nat.ltb a b) end
+              | match goal with |- context [if Nat.eqb ?a ?b then _ else _] => destruct (Nat.eqb a b) end
+              | match goal with |- context [match query_visits ?a ?b with _ => _ end] => destruct (query_visits a b) end
+              | match goal with |- context [if heads_all ?a then _ else _] => destruct (heads_all a) end
+              | match goal with |- context [match strip_glob ?a with _ => _ end] => destruct (strip_glob a) end
+              | match goal with |- context [match dtodo ?a with _ => _ end] => destruct (dtodo a) as [|[? ?] ?] end
+              | match goal with |- context [match ?x with _ => _ end] => is_var x; destruct x end ];
+            cbn -[Nat.ltb hdelete set_cont new_chain] in *; try discriminate).
+  - destruct SH as [_ [_ ->]]. cbn [tpc]. destruct p; cbn in *; try discriminate; qfin.
+  - destruct SH as [_ ->]. cbn [tpc]. destruct p; cbn in *; try discriminate; qfin.
+  - destruct SH as [_ [_ ->]]. cbn [tpc]. destruct p; cbn in *; try discriminate; qfin.
+  - destruct SH as [n [m [hs' [_ [_ ->]]]]]. cbn [tpc]. destruct p; cbn in *; try discriminate; qfin.
+Qed.
+
+Lemma is_prefix_refl r : is_prefix r r = true.
+Proof. apply is_prefix_spec. exists []. rewrite app_nil_r. reflexivity. Qed.
+
+Lemma cp_own b h log i t h' t' :
+  heap_ok h -> thread_ok (List.length h) t -> walk_ok h t -> val_ok t ->
+  quiet_pc (tpc t) = true -> cont_mono h h' ->
+  cp_ok h log i t -> tstep_gen b h t = Some (h', t') ->
+  cp_ok h' (match is_write h t with Some (p, v) => log ++ [(i, p, v)] | None => log end) i t'.
+Proof.
+  intros HO TO WK V Q CM [C0 C1] ST. split.
+  { intros o Pc. exfalso. eapply step_not_start; eauto. }
+  pose proof (tstep_shape _ _ _ _ _ ST) as SH. destruct TO as [SO [IL P]].
+  destruct t as [o pc hs]. cbn [top tpc held] in *.
+  intros p v t0' p'' Tp' Hin W'.
+  assert (To : o = CAdd p v).
+  { destruct (lockop_of (TH o pc hs)); repeat match goal with
+                                            | H : _ /\ _ |- _ => destruct H
+                                            | H : exists _, _ |- _ => destruct H
+                                            end; subst; exact Tp'. }
+  subst o.
+  (* witnesses survive when no content changes and the held locks only grow *)
+  assert (KEEP : forall hs2 t0 pp,
+             (forall x, get_cont h' x = get_cont h x) -> (forall n, In (n, MW) hs -> In (n, MW) hs2) ->
+             In (i, p, v) log -> walk_pos (TH (CAdd p v) pc hs) = Some (p, t0, pp) ->
+             exists n pn sfx l, In (n, MW) hs2 /\ resolve h' 0 pn = Some n /\ sfx <> [] /\
+                                resolve h' n sfx = Some l /\ resolve h' t0 pp = Some l /\ get_cont h' l = CLeaf v).
+  { intros hs2 t0 pp E HS Hl Wp. destruct (C1 p v t0 pp eq_refl Hl Wp) as [n [pn [sfx [l [Hn [Rn [NE [Rl [Rt El]]]]]]]]].
+    exists n, pn, sfx, l. rewrite !(resolve_ext h h' E), E. auto 10. }
+  unfold is_write in Hin. cbn [top tpc] in Hin.
+  destruct pc; cbn -[set_cont new_chain hdelete Nat.ltb] in SH, Q, Hin; try discriminate.
+  - (* PStart *) destruct SH as [-> ->]. exfalso. eapply C0; eauto.
+  - (* PAddEnter *) destruct p0 as [|k r]; cbn in SH.
+    + destruct SH as [-> ->]. cbn in W'. inv W'. cbn [held].
+      apply (KEEP hs _ _); [intros; apply get_cont_upd_mu; auto|auto|auto|reflexivity].
+    + destruct SH as [_ [-> ->]]. cbn in W'. inv W'. cbn [held].
+      apply (KEEP ((t0', MR) :: hs) _ _); [intros; apply get_cont_upd_mu; auto|intros; right; auto|auto|reflexivity].
+  - (* PAddTAcq *) destruct SH as [_ [-> ->]]. cbn in W'. inv W'. cbn [held].
+    apply (KEEP ((t0', MW) :: hs) _ _); [intros; apply get_cont_upd_mu; auto|intros; right; auto|auto|reflexivity].
+  - (* PAddTCrit *) destruct SH as [_ ->]. cbn in W'. destruct (get_cont h t); discriminate.
+  - (* PAddIRead *) destruct SH as [-> ->]. cbn [top tpc visit_override held] in *.
+    destruct (get_cont h t) as [| |cs] eqn:E; cbn in W'.
+    + inv W'. cbn [fst]. apply (KEEP hs _ _); [reflexivity|auto|auto|reflexivity].
+    + discriminate.
+    + destruct (assoc k cs) as [c|] eqn:A; cbn in W'; inv W'; cbn [fst].
+      * destruct (C1 _ _ _ _ eq_refl Hin eq_refl) as [n [pn [sfx [l [Hn [Rn [NE [Rl [Rt El]]]]]]]]].
+        exists n, pn, sfx, l. repeat split; auto. cbn in Rt. rewrite E, A in Rt. exact Rt.
+      * apply (KEEP hs _ _); [reflexivity|auto|auto|reflexivity].
+  - (* PAddIRel *) destruct SH as [n0 [m0 [hs' [Hh [-> ->]]]]]. cbn in W'. injection W' as <- <-. cbn [held].
+    cbn in P. destruct P as [[r0 Hr] _]. inv Hr. inv Hh.
+    apply (KEEP _ _ _); [intros; apply get_cont_upd_mu; auto| |auto|reflexivity].
+    intros n [X|X]; [discriminate|auto].
+  - (* PAddUpg *) destruct SH as [-> ->]. cbn in W'. inv W'. cbn [held].
+    apply (KEEP hs _ _); [intros; apply get_cont_upd_mu; auto|auto|auto|reflexivity].
+  - (* PAddUAcq *) destruct SH as [_ [-> ->]]. cbn in W'. inv W'. cbn [held].
+    apply (KEEP ((t0', MW) :: hs) _ _); [intros; apply get_cont_upd_mu; auto|intros; right; auto|auto|reflexivity].
+  - (* PAddSlow *) destruct SH as [Eh ->]. cbn [top tpc visit_override] in W'.
+    unfold val_ok in V. cbn in V. subst v0.
+    cbn in P. destruct P as [[r0 Hr] _]. subst hs.
+    assert (Lt : t < List.length h) by (inv IL; auto).
+    destruct (walk_ok_pos h _ p t (k :: r) WK eq_refl) as [pre [ns [Ep [Rp _]]]].
+    (* the fresh chain *)
+    assert (FRESH : forall cs0,
+               h' = set_cont h t (CBranch (cs0 ++ [(k, List.length h)])) ++ new_chain (List.length h) r v ->
+               assoc k cs0 = None ->
+               exists n pn sfx l, In (n, MW) ((t, MW) :: r0) /\ resolve h' 0 pn = Some n /\ sfx <> [] /\
+                 resolve h' n sfx = Some l /\ resolve h' (List.length h) r = Some l /\ get_cont h' l = CLeaf v).
+    { intros cs0 Eh' A0.
+      assert (AT : get_cont h' t = CBranch (cs0 ++ [(k, List.length h)])).
+      { rewrite Eh'. rewrite get_cont_app_l by (rewrite length_set_cont; auto). apply get_cont_set_eq; auto. }
+      assert (RC : resolve h' (List.length h) r = Some (List.length h + List.length r)).
+      { rewrite Eh'. rewrite chain_resolve' by apply length_set_cont. rewrite is_prefix_refl. reflexivity. }
+      exists t, pre, (k :: r), (List.length h + List.length r). split; [left; reflexivity|].
+      split; [eapply resolve_mono; eauto|]. split; [discriminate|].
+      split; [cbn; rewrite AT, (assoc_app_none _ _ _ A0); exact RC|]. split; [exact RC|].
+      rewrite Eh'. destruct (chain_content' r (set_cont h t (CBranch (cs0 ++ [(k, List.length h)])))
+                               (List.length h) v (List.length r) (length_set_cont _ _ _) (le_n _)) as [_ C].
+      apply C. reflexivity. }
+    destruct (get_cont h t) as [| |cs] eqn:E; cbn -[set_cont new_chain] in Eh, W', Hin.
+    + inv W'. apply (FRESH []); auto.
+    + discriminate.
+    + destruct (assoc k cs) as [c|] eqn:A; cbn -[set_cont new_chain] in Eh, W', Hin; inv W'.
+      * destruct (C1 _ _ _ _ eq_refl Hin eq_refl) as [n [pn [sfx [l [Hn [Rn [NE [Rl [Rt El]]]]]]]]].
+        exists n, pn, sfx, l. repeat split; auto. cbn in Rt. rewrite E, A in Rt. exact Rt.
+      * apply (FRESH cs); auto.
+  - (* PGetEnter *) destruct SH as [_ [_ ->]]. discriminate.
+  - destruct SH as [_ ->]. cbn in W'. destruct p0 as [|k r]; cbn in W'; [discriminate|].
+    destruct (get_cont h t) as [| |cs]; cbn in W'; try discriminate. destruct (assoc k cs); discriminate.
+  - destruct hs as [|[n m] r0]; cbn in SH.
+    + destruct SH as [_ ->]. destruct k; discriminate.
+    + destruct SH as [n' [m' [hs' [_ [_ ->]]]]]. discriminate.
+  - destruct SH as [_ [_ ->]]. discriminate.
+  - destruct SH as [_ ->]. discriminate.
+  - destruct SH as [n' [m' [hs' [_ [_ ->]]]]]. discriminate.
+  - destruct SH as [_ [_ ->]]. discriminate.
+  - destruct SH as [_ ->]. cbn in W'. destruct (query_visits (get_cont h t) q); discriminate.
+  - destruct SH as [_ ->]. discriminate.
+  - destruct fr as [|[|[[c pre0] q0] todo] fr]; cbn in SH.
+    + destruct SH as [_ ->]. discriminate.
+    + destruct SH as [n' [m' [hs' [_ [_ ->]]]]]. discriminate.
+    + destruct SH as [_ ->]. discriminate.
+Qed.
+
+Theorem reach_cp ops s log :
+  forallb quiet_op ops = true -> reach_log ops s log ->
+  forall i t, nth_error (thr s) i = Some t -> cp_ok (hp s) log i t.
+Proof.
+  intros Q R. assert (QP : forallb patched_op ops = true).
+  { rewrite forallb_forall in *. intros o Ho. specialize (Q o Ho). destruct o; auto; discriminate. }
+  induction R as [|s j s' tj log R IH Ej ST]; intros i t Et.
+  - cbn in Et. rewrite nth_error_map in Et. destruct (nth_error ops i); inv Et. split.
+    + intros o _ p v []. 
+    + intros p v t0 p' _ [].
+  - pose proof (reach_log_reach _ _ _ R) as Rs.
+    destruct (reach_AInv _ _ Q Rs) as [[HO [TO _]] [QS _]].
+    destruct (reach_TInv _ _ QP Rs) as [[_ [_ WO]] _].
+    pose proof (reach_val_ok _ _ Rs) as VO.
+    assert (ST0 := ST). unfold step, step_gen in ST. rewrite Ej in ST.
+    destruct (tstep_gen false (hp s) tj) as [[h' tj']|] eqn:Ets; [|discriminate]. inv ST. cbn [hp thr] in *.
+    pose proof (Forall_nth_error _ _ _ _ TO Ej) as Tj.
+    pose proof (Forall_nth_error _ _ _ _ QS Ej) as Qj. cbn in Qj.
+    destruct (Nat.eq_dec j i) as [->|D].
+    + erewrite nth_error_set_nth_eq in Et by eauto. inv Et.
+      eapply cp_own; eauto.
+      * apply (Forall_nth_error _ _ _ _ WO Ej).
+      * apply (Forall_nth_error _ _ _ _ VO Ej).
+      * eapply tstep_cont_mono; eauto.
+    + rewrite nth_error_set_nth_neq in Et by auto.
+      assert (C : cp_ok h' log i t).
+      { eapply (cp_other ops s log i j t tj); eauto. }
+      destruct (is_write (hp s) tj) as [[p0 v0]|]; [|exact C].
+      destruct C as [C0 C1]. split.
+      * intros o Pc p v H. apply in_app_or in H. destruct H as [H|[H|[]]]; [eapply C0; eauto|].
+        inv H. contradiction.
+      * intros p v t0 p' Tp H W. apply in_app_or in H. destruct H as [H|[H|[]]]; [eapply C1; eauto|].
+        inv H. contradiction.
+Qed.
+
+(** consequence 1: when an Add that has already inserted its chain reaches
+    terminalAdd, the leaf already holds its value -- its second store changes
+    nothing *)
+Theorem add_rewalk_store_is_noop ops s log i t p v t0 v' :
+  forallb quiet_op ops = true -> reach_log ops s log ->
+  nth_error (thr s) i = Some t -> top t = CAdd p v -> tpc t = PAddTCrit t0 v' ->
+  In (i, p, v) log ->
+  get_cont (hp s) t0 = CLeaf v /\ absf (hp s) p = Some v.
+Proof.
+  intros Q R Et Tp Pc H.
+  destruct (reach_cp _ _ _ Q R i t Et) as [_ C1].
+  destruct (C1 p v t0 [] Tp H) as [n [pn [sfx [l [_ [_ [_ [_ [Rt El]]]]]]]]].
+  { unfold walk_pos. rewrite Tp, Pc. reflexivity. }
+  cbn in Rt. inv Rt. split; [exact El|].
+  destruct (point_ops_on_current_node ops s i t p l [] (reach_log_reach _ _ _ R) Et) as [pre [Ep Rp]].
+  { unfold walk_pos. rewrite Tp, Pc. reflexivity. }
+  rewrite app_nil_r in Ep. subst pre. unfold absf. rewrite Rp, El. reflexivity.
+Qed.
+
+(** * Forward simulation to the flat specification (Add / GetLeafValue programs) *)
+
+Definition written (log : list (nat * path * Z)) (i : nat) : bool :=
+  existsb (fun e => Nat.eqb (fst (fst e)) i) log.
+
+Definition leaf_val (c : content) : option Z := match c with CLeaf v => Some v | _ => None end.
+
+(** [lin_event h log i t = Some r]: the next step of thread [i] is the
+    linearization point of its call, which will return [r] *)
+Definition lin_event (h : heap) (log : list (nat * path * Z)) (i : nat) (t : thread) : option cres :=
+  match top t, tpc t with
+  | CAdd _ _, PAddTCrit t0 _ =>
+      if is_branch_c (get_cont h t0) then Some (XAdd false)
+      else if written log i then None else Some (XAdd true)
+  | CAdd _ _, PAddIRead t0 _ _ _ =>
+      match get_cont h t0 with CLeaf _ => Some (XAdd false) | _ => None end
+  | CAdd _ _, PAddSlow t0 k _ _ =>
+      match get_cont h t0 with
+      | CLeaf _ => Some (XAdd false)
+      | CNil => Some (XAdd true)
+      | CBranch cs => match assoc k cs with None => Some (XAdd true) | Some _ => None end
+      end
+  | CGetVal _, PHValRead n => Some (XVal (leaf_val (get_cont h n)))
+  | CGetVal _, PGetRead t0 (k :: _) =>
+      match get_cont h t0 with
+      | CBranch cs => match assoc k cs with None => Some (XVal None) | Some _ => None end
+      | _ => Some (XVal None)
+      end
+  | _, _ => None
+  end.
+
+(** the flat prefix-free map (the specification of C09, [CTreeCheck.fstep], on
+    functions): one sequential step with its answer *)
+Definition conflicting (m : path -> option Z) (p : path) : Prop :=
+  exists q, (strict_prefix q p = true \/ strict_prefix p q = true) /\ m q <> None.
+
+Definition spec_step (m : path -> option Z) (o : cop) (r : cres) (m' : path -> option Z) : Prop :=
+  (exists p v, o = CAdd p v /\ r = XAdd true /\ conflict_free m p /\ forall q, m' q = upd m p v q) \/
+  (exists p v, o = CAdd p v /\ r = XAdd false /\ conflicting m p /\ forall q, m' q = m q) \/
+  (exists p, o = CGetVal p /\ r = XVal (m p) /\ forall q, m' q = m q).
+
+Inductive spec_run : (path -> option Z) -> list (cop * cres) -> (path -> option Z) -> Prop :=
+| sr_nil m : spec_run m [] m
+| sr_snoc m l m1 o r m2 : spec_run m l m1 -> spec_step m1 o r m2 -> spec_run m (l ++ [(o, r)]) m2.
+
+Lemma spec_step_ext m1 m2 o r m' :
+  (forall q, m1 q = m2 q) -> spec_step m1 o r m' -> spec_step m2 o r m'.
+Proof.
+  intros E [[p [v [-> [-> [C U]]]]]|[[p [v [-> [-> [C U]]]]]|[p [-> [-> U]]]]].
+  - left. exists p, v. repeat split; auto.
+    + intros q H. rewrite <- E. apply C; auto.
+    + intros q. rewrite U. unfold upd. rewrite E. reflexivity.
+  - right; left. exists p, v. repeat split; auto.
+    + destruct C as [q [H N]]. exists q. split; auto. rewrite <- E. exact N.
+    + intros q. rewrite U. apply E.
+  - right; right. exists p. rewrite (E p). repeat split; auto. intros q. rewrite U. apply E.
+Qed.
+
+(** nothing stored conflicts with the path below which a fresh chain is inserted *)
+Lemma prefix_cases (pre : path) k r q :
+  is_prefix q (pre ++ k :: r) = true -> is_prefix (pre ++ [k]) q = false -> is_prefix q pre = true.
+Proof.
+  revert q. induction pre as [|a pre IH]; intros q H1 H2; cbn in *.
+  - destruct q as [|b q]; [reflexivity|]. cbn in *. apply andb_true_iff in H1. destruct H1 as [E _].
+    rewrite String.eqb_sym in H2. rewrite E in H2. cbn in H2. discriminate.
+  - destruct q as [|b q]; [reflexivity|]. cbn in *. apply andb_true_iff in H1. destruct H1 as [E H1].
+    rewrite String.eqb_sym in H2. rewrite E in H2. cbn in H2. rewrite E. cbn. apply IH; auto.
+Qed.
+
+Lemma conflict_free_insert h pre t0 k r :
+  resolve h 0 pre = Some t0 ->
+  match get_cont h t0 with
+  | CNil => True
+  | CBranch cs => assoc k cs = None
+  | CLeaf _ => False
+  end ->
+  conflict_free (absf h) (pre ++ k :: r).
+Proof.
+  intros R C q H.
+  assert (BELOW : forall s, absf h ((pre ++ [k]) ++ s) = None).
+  { intros s. unfold absf. rewrite <- app_assoc. cbn [app]. rewrite resolve_app, R. cbn.
+    destruct (get_cont h t0) as [| |cs]; [reflexivity|contradiction|]. rewrite C. reflexivity. }
+  destruct (is_prefix (pre ++ [k]) q) eqn:IP.
+  - apply is_prefix_spec in IP. destruct IP as [s ->]. apply BELOW.
+  - destruct H as [H|H].
+    + (* q above the new path and not through the new edge: q is a prefix of pre *)
+      unfold strict_prefix in H. apply andb_true_iff in H. destruct H as [H _].
+      pose proof (prefix_cases _ _ _ _ H IP) as HP. apply is_prefix_spec in HP. destruct HP as [s Es].
+      unfold absf. rewrite Es in R. rewrite resolve_app in R.
+      destruct (resolve h 0 q) as [m|]; [|reflexivity].
+      destruct s as [|a s]; cbn in R.
+      * inv R. destruct (get_cont h t0); try reflexivity. contradiction.
+      * destruct (get_cont h m) as [| |cs]; try discriminate; reflexivity.
+    + (* q below the new path goes through the new edge *)
+      apply strict_prefix_split in H. destruct H as [s [_ ->]].
+      assert (is_prefix (pre ++ [k]) ((pre ++ k :: r) ++ s) = true).
+      { apply is_prefix_spec. exists (r ++ s). rewrite <- !app_assoc. reflexivity. }
+      congruence.
+Qed.
+
+Lemma written_In ops s log i t :
+  reach_log ops s log -> nth_error (thr s) i = Some t -> written log i = true ->
+  exists p v, top t = CAdd p v /\ In (i, p, v) log.
+Proof.
+  intros R Et W. unfold written in W. apply existsb_exists in W. destruct W as [[[j p] v] [H E]].
+  cbn in E. apply Nat.eqb_eq in E. subst j. exists p, v. split; [|exact H].
+  pose proof (log_ops _ _ _ R _ _ _ H) as O.
+  pose proof (nth_error_top _ _ _ _ (reach_log_reach _ _ _ R) Et) as O'. congruence.
+Qed.
+
+Lemma quiet_patched ops : forallb quiet_op ops = true -> forallb patched_op ops = true.
+Proof.
+  intros Q. rewrite forallb_forall in *. intros o Ho. specialize (Q o Ho). destruct o; auto; discriminate.
+Qed.
+
+(** the heart of the simulation: a linearization step is a step of the
+    specification with the same answer; every other step leaves the abstract
+    state as it is *)
+Lemma lin_step_sim ops s log i t s' :
+  forallb quiet_op ops = true -> reach_log ops s log ->
+  nth_error (thr s) i = Some t -> step s i = Some s' ->
+  match lin_event (hp s) log i t with
+  | Some r => spec_step (absf (hp s)) (top t) r (absf (hp s'))
+  | None => forall q, absf (hp s') q = absf (hp s) q
+  end.
+Proof.
+  intros Q RL Et ST. pose proof (reach_log_reach _ _ _ RL) as R.
+  pose proof (quiet_patched _ Q) as QP.
+  pose proof (reach_TInv _ _ QP R) as TI. pose proof (reach_val_ok _ _ R) as VO.
+  destruct (reach_AInv _ _ Q R) as [_ [QS _]].
+  pose proof (Forall_nth_error _ _ _ _ QS Et) as Qt. cbn in Qt.
+  pose proof (Forall_nth_error _ _ _ _ VO Et) as V.
+  pose proof (step_abs_effect s i s' t TI VO ST Et) as EF.
+  (* the two possible effects in a quiet program *)
+  assert (EFF : (is_write (hp s) t = None /\ forall q, absf (hp s') q = absf (hp s) q) \/
+                (exists p v, is_write (hp s) t = Some (p, v) /\ top t = CAdd p v /\
+                             forall q, absf (hp s') q = upd (absf (hp s)) p v q)).
+  { destruct EF as [W E|p v W Tp E|n v Pc _|D _]; [left; auto|right; eauto| |].
+    - rewrite Pc in Qt. discriminate.
+    - destruct (tpc t); discriminate. }
+  clear EF.
+  unfold lin_event. destruct (top t) as [p v|p| | | | |] eqn:Tp.
+  - (* Add *)
+    destruct (tpc t) eqn:Pc;
+      try (destruct EFF as [[_ E]|[p9 [v9 [W _]]]]; [exact E|];
+           unfold is_write in W; rewrite Tp, Pc in W; discriminate).
+    + (* terminalAdd *)
+      unfold val_ok in V. rewrite Pc, Tp in V. cbn in V. subst v0.
+      destruct (is_branch_c (get_cont (hp s) t0)) eqn:B.
+      * right; left. exists p, v. split; [auto|]. split; [auto|]. split.
+        -- destruct (get_cont (hp s) t0) as [| |cs] eqn:E; try discriminate.
+           destruct (add_failure_point_branch_at ops s i t p v t0 v cs Q R Et Tp Pc E) as [q [H N]].
+           exists q. auto.
+        -- destruct EFF as [[_ E]|[p9 [v9 [W _]]]]; [exact E|].
+           unfold is_write in W. rewrite Tp, Pc, B in W. discriminate.
+      * destruct (written log i) eqn:Wr.
+        -- destruct (written_In _ _ _ _ _ RL Et Wr) as [p1 [v1 [Tp1 H1]]]. rewrite Tp in Tp1. inv Tp1.
+           destruct (add_rewalk_store_is_noop ops s log i t p1 v1 t0 v1 Q RL Et Tp Pc H1) as [_ A].
+           destruct EFF as [[_ E]|[p9 [v9 [W [Tp0 E]]]]]; [exact E|]. try rewrite Tp in Tp0. inv Tp0.
+           intros q. rewrite E. unfold upd. destruct (path_eqb_spec q p9) as [->|]; auto.
+        -- left. exists p, v. split; [auto|]. split; [auto|].
+           eapply add_success_point; eauto.
+    + (* intermediateAdd's read *)
+      destruct (get_cont (hp s) t0) as [|w|cs] eqn:E.
+      * destruct EFF as [[_ E']|[p9 [v9 [W _]]]]; [exact E'|]. unfold is_write in W. rewrite Tp, Pc in W. discriminate.
+      * right; left. exists p, v. split; [auto|]. split; [auto|]. split.
+        -- destruct (add_failure_point_leaf_above ops s i t p v t0 k r v0 R Et Tp (or_introl Pc)) as [q [H N]]; [eauto|].
+           exists q. auto.
+        -- destruct EFF as [[_ E']|[p9 [v9 [W _]]]]; [exact E'|]. unfold is_write in W. rewrite Tp, Pc in W. discriminate.
+      * destruct EFF as [[_ E']|[p9 [v9 [W _]]]]; [exact E'|]. unfold is_write in W. rewrite Tp, Pc in W. discriminate.
+    + (* slowAdd *)
+      unfold val_ok in V. rewrite Pc, Tp in V. cbn in V. subst v0.
+      destruct (walk_pos_resolve s i t p t0 (k :: r) TI Et) as [pre [Ep Rp]].
+      { unfold walk_pos. rewrite Tp, Pc. reflexivity. }
+      assert (INS : match get_cont (hp s) t0 with
+                    | CNil => True | CBranch cs => assoc k cs = None | CLeaf _ => False end ->
+                    spec_step (absf (hp s)) (CAdd p v) (XAdd true) (absf (hp s'))).
+      { intros C. left. exists p, v. split; [auto|]. split; [auto|]. split.
+        - subst p. eapply conflict_free_insert; eauto.
+        - destruct EFF as [[W _]|[p9 [v9 [W [Tp0 E']]]]].
+          + unfold is_write in W. rewrite Tp, Pc in W.
+            destruct (get_cont (hp s) t0) as [| |cs]; try discriminate; try contradiction.
+            rewrite C in W. discriminate.
+          + try rewrite Tp in Tp0. inv Tp0. exact E'. }
+      destruct (get_cont (hp s) t0) as [|w|cs] eqn:E.
+      * apply INS. exact I.
+      * right; left. exists p, v. split; [auto|]. split; [auto|]. split.
+        -- destruct (add_failure_point_leaf_above ops s i t p v t0 k r v R Et Tp (or_intror Pc)) as [q [H N]]; [eauto|].
+           exists q. auto.
+        -- destruct EFF as [[_ E']|[p9 [v9 [W _]]]]; [exact E'|].
+           unfold is_write in W. rewrite Tp, Pc, E in W. discriminate.
+      * destruct (assoc k cs) eqn:A.
+        -- destruct EFF as [[_ E']|[p9 [v9 [W _]]]]; [exact E'|].
+           unfold is_write in W. rewrite Tp, Pc, E, A in W. discriminate.
+        -- apply INS; auto.
+  - (* GetLeafValue *)
+    assert (SAME : forall q, absf (hp s') q = absf (hp s) q).
+    { destruct EFF as [[_ E]|[p9 [v9 [W Tp0]]]]; [exact E|]. destruct Tp0 as [Tp0 _]. try rewrite Tp in Tp0; discriminate. }
+    destruct (tpc t) eqn:Pc; try exact SAME.
+    + (* Get's walk *)
+      destruct p0 as [|k r]; [exact SAME|].
+      assert (MISS : match get_cont (hp s) t0 with CBranch cs => assoc k cs = None | _ => True end ->
+                     spec_step (absf (hp s)) (CGetVal p) (XVal None) (absf (hp s'))).
+      { intros M. right; right. exists p. split; [auto|]. split; [|exact SAME].
+        rewrite (get_miss_point ops s i t p t0 k r R Et Tp Pc M). reflexivity. }
+      destruct (get_cont (hp s) t0) as [| |cs] eqn:E; try (apply MISS; exact I).
+      destruct (assoc k cs) eqn:A; [exact SAME|]. apply MISS; auto.
+    + (* Value() *)
+      right; right. exists p. split; [auto|]. split; [|exact SAME].
+      pose proof (Forall_nth_error _ _ _ _ (reach_gv_ok _ _ Q R) Et) as G.
+      unfold gv_ok in G. rewrite Tp, Pc in G. cbn in G. unfold absf. rewrite G. reflexivity.
+  - destruct EFF as [[_ E]|[p9 [v9 [W [Tp0 _]]]]]; [exact E|]. try rewrite Tp in Tp0; discriminate.
+  - destruct EFF as [[_ E]|[p9 [v9 [W [Tp0 _]]]]]; [exact E|]. try rewrite Tp in Tp0; discriminate.
+  - destruct EFF as [[_ E]|[p9 [v9 [W [Tp0 _]]]]]; [exact E|]. try rewrite Tp in Tp0; discriminate.
+  - destruct EFF as [[_ E]|[p9 [v9 [W [Tp0 _]]]]]; [exact E|]. try rewrite Tp in Tp0; discriminate.
+  - destruct EFF as [[_ E]|[p9 [v9 [W [Tp0 _]]]]]; [exact E|]. try rewrite Tp in Tp0; discriminate.
+Qed.
+
+(** runs with the write log and the sequence of linearization events (thread, answer) *)
+Inductive reach_lin (ops : list cop) : state -> list (nat * path * Z) -> list (nat * cres) -> Prop :=
+| rli_init : reach_lin ops (init_state ops) [] []
+| rli_step s i s' t log ev :
+    reach_lin ops s log ev -> nth_error (thr s) i = Some t -> step s i = Some s' ->
+    reach_lin ops s'
+      (match is_write (hp s) t with Some (p, v) => log ++ [(i, p, v)] | None => log end)
+      (match lin_event (hp s) log i t with Some r => ev ++ [(i, r)] | None => ev end).
+
+Lemma reach_lin_log ops s log ev : reach_lin ops s log ev -> reach_log ops s log.
+Proof. induction 1; [constructor|econstructor; eauto]. Qed.
+
+Lemma reach_reach_lin ops s : reach ops s -> exists log ev, reach_lin ops s log ev.
+Proof.
+  induction 1 as [|s i s' R [log [ev IH]] ST]; [exists [], []; constructor|].
+  unfold step, step_gen in ST. destruct (nth_error (thr s) i) as [t|] eqn:Et; [|discriminate].
+  eexists. eexists. eapply (rli_step ops s i s' t); eauto. unfold step, step_gen. rewrite Et. exact ST.
+Qed.
+
+Definition ev_ops (ops : list cop) (ev : list (nat * cres)) : list (cop * cres) :=
+  map (fun e => (nth (fst e) ops (CGetVal []), snd e)) ev.
+
+(** Forward simulation: the linearization events of any run, in the order in
+    which they happen, with the answers the calls return, form a run of the
+    sequential specification from the empty map -- and that run ends in the
+    abstraction of the current heap. *)
+Theorem lin_simulation ops s log ev :
+  forallb quiet_op ops = true -> reach_lin ops s log ev ->
+  exists m, spec_run (fun _ => None) (ev_ops ops ev) m /\ forall q, m q = absf (hp s) q.
+Proof.
+  intros Q R. induction R as [|s i s' t log ev R [m [SR EQ]] Et ST].
+  - exists (fun _ => None). split; [constructor|]. intros q. symmetry. apply absf_init.
+  - pose proof (lin_step_sim ops s log i t s' Q (reach_lin_log _ _ _ _ R) Et ST) as SIM.
+    destruct (lin_event (hp s) log i t) as [r|].
+    + exists (absf (hp s')). split; [|reflexivity].
+      unfold ev_ops. rewrite map_app. cbn [map fst snd].
+      eapply sr_snoc; [exact SR|].
+      assert (TopEq : nth i ops (CGetVal []) = top t).
+      { apply nth_error_nth. eapply nth_error_top; eauto.
+        eapply reach_log_reach. eapply reach_lin_log; eauto. }
+      rewrite TopEq. eapply spec_step_ext; [|exact SIM]. intros q. symmetry. apply EQ.
+    + exists m. split; [exact SR|]. intros q. rewrite SIM. apply EQ.
+Qed.
